@@ -31,7 +31,9 @@ inductive StepCase (u : Universe) (cur : Path) (curId : Nat) (a : Acc) (idep : I
       (hm : u.matchingVersions idep.name idep.req = .ok dvers)
       (hw : walkUp u a.st.tree idep dvers cur = .ok none)
       (ht : a'.st.tree = a.st.tree ∨
-        ∃ pkg parent, hoist pkg idep.alias a.st.tree cur = .ok (a'.st.tree, parent))
+        ∃ pick node parent, wouldPick u dvers = .ok (some pick) ∧
+          newTreeNode u pick a.st.nodes.length = .ok node ∧
+          hoist node.ver.name idep.alias a.st.tree cur = .ok (a'.st.tree, parent))
       (hn : a'.st.nodes = addErrL a.st.nodes curId (idep.name, idep.req))
       (he : a'.st.edges = a.st.edges)
       (hi : a'.ins = a.ins)
@@ -155,7 +157,7 @@ theorem stepDep_cases {u : Universe} {cur : Path} {curId : Nat} {a a' : Acc} {id
                   · rename_i st hae
                     obtain ⟨_, rfl⟩ := addError_some hae
                     cases h
-                    exact .error dvers hm hw (Or.inr ⟨_, _, hh⟩) rfl rfl rfl
+                    exact .error dvers hm hw (Or.inr ⟨pick, node, _, hp, hnode, hh⟩) rfl rfl rfl
                 · rename_i hun
                   simp only [State.addNode] at h
                   split at h
